@@ -228,6 +228,53 @@ func TestReplay(t *testing.T) {
 					}
 				}
 			}
+		case "mask2":
+			names := strings.Split(c.VName, "|")
+			// the forms, one right after the other, twice: text with "|", XML (space), JSON ("|"), text with " | ", text with " "
+			for round := 0; round < 2; round++ {
+				if s := string(ttlv.AppendBitmaskString(nil, c.Tag, int32(c.Value), "|")); s != c.VName {
+					probs = append(probs, fmt.Sprintf("mask-written-as-%q-with-separator-bar", s))
+				}
+				var xml, js string
+				var backX, backJ int
+				var errX, errJ error
+				switch c.Tag {
+				case kmip.TagCryptographicUsageMask:
+					typed := kmip.CryptographicUsageMask(c.Value)
+					_ = ttlv.BitmaskStr(typed, " | ")
+					xml, js = string(ttlv.MarshalXML(typed)), string(ttlv.MarshalJSON(typed))
+					var ox, oj kmip.CryptographicUsageMask
+					errX, errJ = ttlv.UnmarshalXML([]byte(xml), &ox), ttlv.UnmarshalJSON([]byte(js), &oj)
+					backX, backJ = int(ox), int(oj)
+					if s := ttlv.BitmaskStr(typed, " | "); s != strings.Join(names, " | ") {
+						probs = append(probs, fmt.Sprintf("BitmaskStr-gives-%q", s))
+					}
+				case kmip.TagStorageStatusMask:
+					typed := kmip.StorageStatusMask(c.Value)
+					_ = ttlv.BitmaskStr(typed, " | ")
+					xml, js = string(ttlv.MarshalXML(typed)), string(ttlv.MarshalJSON(typed))
+					var ox, oj kmip.StorageStatusMask
+					errX, errJ = ttlv.UnmarshalXML([]byte(xml), &ox), ttlv.UnmarshalJSON([]byte(js), &oj)
+					backX, backJ = int(ox), int(oj)
+					if s := ttlv.BitmaskStr(typed, " | "); s != strings.Join(names, " | ") {
+						probs = append(probs, fmt.Sprintf("BitmaskStr-gives-%q", s))
+					}
+				default:
+					continue
+				}
+				if !strings.Contains(xml, `value="`+strings.Join(names, " ")+`"`) {
+					probs = append(probs, "xml-mask-form:"+xml)
+				}
+				if !strings.Contains(js, `"`+c.VName+`"`) {
+					probs = append(probs, "json-mask-form:"+js)
+				}
+				if errX != nil || backX != c.Value {
+					probs = append(probs, fmt.Sprintf("xml-mask-read-as-%d-err-%v:%s", backX, errX, xml))
+				}
+				if errJ != nil || backJ != c.Value {
+					probs = append(probs, fmt.Sprintf("json-mask-read-as-%d-err-%v:%s", backJ, errJ, js))
+				}
+			}
 		}
 		if len(probs) > 0 {
 			out.Emit(map[string]any{"case": i, "c": c, "problems": probs})
